@@ -648,7 +648,13 @@ pub fn gen_file(rng: &mut Rng, sc: SizeClass) -> Workload {
 /// a single raw deflate stream with its plaintext
 pub fn gen_stream(rng: &mut Rng, min_plain: usize, max_plain: usize) -> (Compressor, Vec<u8>, Vec<u8>) {
     let target = rng.range(min_plain as u64, max_plain as u64) as usize;
-    let plain = gen_plaintext(rng, target);
+    let plain = if rng.chance(1, 12) {
+        // window-limit distances; the window is chosen so that the text stays near the size class
+        let w = if max_plain >= 70000 { rng.range(9, 15) } else if max_plain >= 9000 { rng.range(9, 12) } else { 9 } as u32;
+        gen_boundary_distance_plaintext(rng, w, 60)
+    } else {
+        gen_plaintext(rng, target)
+    };
     let compressor = Compressor::random(rng);
     let raw = compressor.compress(&plain);
     (compressor, plain, raw)
@@ -665,4 +671,63 @@ pub fn gen_incompressible(rng: &mut Rng, len: usize) -> Vec<u8> {
         }
     }
     v
+}
+
+/// container-like sample files shipped with the repository (used by the thorough tiers as
+/// additional, real-world workloads)
+pub const SAMPLE_FILES: [&str; 7] = [
+    "samplezip.zip",
+    "treegdi.png",
+    "sample1.bin.gz",
+    "samplepptx.pptx",
+    "file-sample_1MB.docx",
+    "starcontrol.samplesave",
+    "skiplengthcrash.bin",
+];
+
+pub fn sample_file(i: usize) -> Option<Vec<u8>> {
+    std::fs::read(format!("/repo/samples/{}", SAMPLE_FILES[i % SAMPLE_FILES.len()])).ok()
+}
+
+/// plaintext whose repeats sit at distances around the limits compressors and the predictor
+/// care about (2^w - 262 and 2^w for a seeded w, +-2), separated by fresh noise so that no
+/// nearer match exists
+pub fn gen_boundary_distance_plaintext(rng: &mut Rng, w: u32, rounds: usize) -> Vec<u8> {
+    let wsize = 1usize << w;
+    let mut out: Vec<u8> = Vec::with_capacity(wsize * 2 + rounds * 128);
+    // a prefix of incompressible but 7-bit bytes longer than the window
+    let prefix = wsize + 600;
+    let mut tmp = vec![0u8; prefix];
+    rng.fill(&mut tmp);
+    for b in tmp.iter_mut() {
+        *b = 0x20 + (*b % 0x5f);
+    }
+    out.extend_from_slice(&tmp);
+    let dists: Vec<i64> = {
+        let mut v = Vec::new();
+        for base in [wsize as i64 - 262, wsize as i64, wsize as i64 - 261, wsize as i64 / 2] {
+            for d in -2i64..=2 {
+                v.push(base + d);
+            }
+        }
+        v
+    };
+    for _ in 0..rounds {
+        let d = *rng.pick(&dists);
+        if d < 1 || d as usize > out.len() {
+            continue;
+        }
+        let len = rng.range(3, 48) as usize;
+        let from = out.len() - d as usize;
+        for k in 0..len {
+            let b = out[from + k];
+            out.push(b);
+        }
+        // fresh noise between the copies
+        let n = rng.range(1, 40) as usize;
+        for _ in 0..n {
+            out.push(0x20 + (rng.below(0x5f) as u8));
+        }
+    }
+    out
 }
